@@ -2871,10 +2871,10 @@ static int bufr_get_ccitt_compressed
       bufr_print_debug( errmsg );
       }
 /*
- * all values are missing
+ * all values are missing; 63 is the real width of a 63-octet element
  */
    missing = bufr_missing_ivalue( 6 );
-   if (nbinc == missing)
+   if ((nbinc == missing) && (cb->encoding.nbits != nbinc * 8))
       {
       nbinc = 0;
       }
